@@ -600,10 +600,9 @@ func (c *controller) SetNode(l log.Logger, node *v1.Node) controllers.SyncState 
 }
 
 func isNodeAvailableChanged(oldNodes map[string]*v1.Node, newNode *v1.Node) bool {
-	oldNode, exists := oldNodes[newNode.Name]
-	if !exists {
-		return false
-	}
+	// A node we did not know yet was treated as available (nil node): a first
+	// sight that says otherwise changes the outcome for the services already processed.
+	oldNode := oldNodes[newNode.Name]
 
 	if k8snodes.IsNetworkUnavailable(oldNode) != k8snodes.IsNetworkUnavailable(newNode) {
 		return true
